@@ -821,6 +821,13 @@ class Interp:
             if isinstance(a, str):
                 return {"starts_with": recv.startswith, "ends_with": recv.endswith, "contains": lambda x: x in recv,
                         "eq_ignore_ascii_case": lambda x: x.lower() == recv.lower()}[m](a)
+            if isinstance(a, list) and a and all(isinstance(x, str) and len(x) == 1 for x in a) and m != "eq_ignore_ascii_case":
+                # the pattern is a set of characters (`['%', '_']`)
+                return {"starts_with": lambda: recv[:1] in a and recv != "", "ends_with": lambda: recv[-1:] in a and recv != "",
+                        "contains": lambda: any(ch in a for ch in recv)}[m]()
+            if isinstance(a, Closure) and m in ("starts_with", "ends_with", "contains"):
+                hit = [self._bool(self.apply(a, [ch]), n) for ch in recv]
+                return {"starts_with": lambda: bool(hit) and hit[0], "ends_with": lambda: bool(hit) and hit[-1], "contains": lambda: any(hit)}[m]()
         if isinstance(recv, Entry):
             if m in ("or_default", "or_insert", "or_insert_with", "or_insert_with_key"):
                 if recv.k not in recv.m:
